@@ -129,6 +129,46 @@ PROPS = {
                      'list.reverse(): new[k] == old[len-1-k] (builtin contract)'],
         trusted_base=[],
     ),
+    'C15': dict(
+        level='proof',
+        text='copy()/freeze_message()/thaw_message() are proved, for Message, MetaMessage and UnknownMetaMessage values with '
+             'symbolic attributes, to return an object of the matching class whose attribute dict is a fresh dict holding the '
+             'same values, all of immutable kinds (so later assignments on either object cannot reach the other); with overrides '
+             'copy equals a fresh construction or rejects like the constructor, leaving the original unchanged; frozen objects '
+             'reject every assignment/deletion with state unchanged; thaw(freeze(m)) == m, freeze is idempotent by identity, '
+             'None maps to None; equal frozen messages feed hash() equal structures of hashable values.',
+        note='trusted: pyvc, z3/cvc5; ASSUMED: hash() of tuples/ints/floats/str is a function of their == value (Python data '
+             'model), dict lookup uses hash+eq; known finding K4-C15 (list-valued sequencer_specific data) listed',
+        clauses=[
+            ['copy() without/with overrides (Message: see C03 MessageCopy; MetaMessage.copy here)', 'P'],
+            ['freeze/thaw class mapping, equality, freshness, None, idempotence', 'P'],
+            ['frozen objects reject setattr/delattr, state unchanged', 'P'],
+            ['equal frozen messages hash equal / dict keys', 'PA (hash/eq contract of builtins)'],
+        ],
+        assumptions=['Python hash/eq contract for int, float, str, tuple'],
+        trusted_base=[],
+    ),
+    'C17': dict(
+        level='proof',
+        text='every exit of MidiFile._load and MidiFile._save - normal, and exceptional at every call position for every '
+             'exception class the callees can raise - is an explicit path of the symbolic execution of the real functions, and '
+             'on each one meta._charset equals its value before the call; inside the body (at every callee call) the charset '
+             'in force is the file charset. The context manager is also verified by itself with a replayable harness. '
+             'encode_string/decode_string are proved to use the charset in force (text bytes == Enc(charset, text), and back).',
+        note='trusted: pyvc, z3/cvc5; callees of _load/_save are replaced by their weakest contract (any outcome, does not '
+             'assign _charset); that frame condition is checked on the syntax tree of the whole package every run; text codecs '
+             'are an uninterpreted model (assumed round-trip for encodable text); a bounded stand-in injects real faults at '
+             'every byte of real files',
+        clauses=[
+            ['_load/_save restore the process-wide charset on every exit', 'P'],
+            ['charset in force during the call == file charset', 'P'],
+            ['only meta_charset assigns _charset (syntactic frame check)', 'P'],
+            ['encode_string/decode_string follow the charset in force', 'PA (codec model)'],
+            ['end-to-end save/load with faults at every byte, 5 charsets', 'B'],
+        ],
+        assumptions=['codec model: Dec(cs, Enc(cs, s)) == s for encodable s'],
+        trusted_base=[],
+    ),
     'C02': dict(
         level='proof',
         text='Message.from_bytes / decode_message are verified against the MIDI 1.0 well-formedness predicate for integer '
@@ -149,5 +189,5 @@ PROPS = {
 }
 
 NOT_APPLICABLE = {pid: _PENDING for pid in
-                  ['C07', 'C08', 'C10', 'C11', 'C12', 'C13', 'C14', 'C15',
-                   'C16', 'C17', 'C18', 'C19', 'C20']}
+                  ['C07', 'C08', 'C10', 'C11', 'C12', 'C13', 'C14',
+                   'C16', 'C18', 'C19', 'C20']}
